@@ -115,6 +115,7 @@ def perform_pair_setup_part1(
     step2_expectations = [
         TLV.kTLVType_State,
         TLV.kTLVType_Error,
+        TLV.kTLVType_RetryDelay,
         TLV.kTLVType_PublicKey,
         TLV.kTLVType_Salt,
     ]
@@ -203,6 +204,7 @@ def perform_pair_setup_part2(
     step4_expectations = [
         TLV.kTLVType_State,
         TLV.kTLVType_Error,
+        TLV.kTLVType_RetryDelay,
         TLV.kTLVType_Proof,
         TLV.kTLVType_EncryptedData,
     ]
@@ -277,6 +279,7 @@ def perform_pair_setup_part2(
     step6_expectations = [
         TLV.kTLVType_State,
         TLV.kTLVType_Error,
+        TLV.kTLVType_RetryDelay,
         TLV.kTLVType_EncryptedData,
     ]
     response_tlv = yield (response_tlv, step6_expectations)
@@ -465,6 +468,7 @@ def get_session_keys(
     step2_expectations = [
         TLV.kTLVType_State,
         TLV.kTLVType_Error,
+        TLV.kTLVType_RetryDelay,
         TLV.kTLVType_PublicKey,
         TLV.kTLVType_EncryptedData,
     ]
@@ -559,7 +563,11 @@ def get_session_keys(
         (TLV.kTLVType_EncryptedData, encrypted_data_with_auth_tag),
     ]
 
-    step3_expectations = [TLV.kTLVType_State, TLV.kTLVType_Error]
+    step3_expectations = [
+        TLV.kTLVType_State,
+        TLV.kTLVType_Error,
+        TLV.kTLVType_RetryDelay,
+    ]
     response_tlv = yield (request_tlv, step3_expectations)
 
     #
